@@ -262,10 +262,26 @@ fn rr(ctx: &mut Ctx, dial: bool) {
             if departed {
                 rt::task::idle().await;
                 let mut observed = false;
+                let oconns: Vec<(Arc<rt::net::Conn>, usize)> = s2.borrow().conns.iter().map(|c| c.as_ref().map(|c| (c.0.clone(), c.2)).unwrap()).collect();
                 for t in 0..2 * k {
-                    if sock.send(to_zmq(&tagged(1, t as u32, &[5]))).await.is_err() {
+                    let before: Vec<usize> = oconns.iter().map(|(c, side)| c.tap_len_from(*side)).collect();
+                    let body1 = tagged(1, t as u32, &[5]);
+                    if sock.send(to_zmq(&body1)).await.is_err() {
                         observed = true;
                         break;
+                    }
+                    // whatever the socket does about the peer that has gone (fail the call, or pass
+                    // the message on to the next peer), a peer that is alive gets the message as sent
+                    let gained: Vec<usize> = (0..k).filter(|j| *j != d && oconns[*j].0.tap_len_from(oconns[*j].1) != before[*j]).collect();
+                    if gained.len() == 1 {
+                        let j = gained[0];
+                        let mut wire1 = if kind == Kind::Req { vec![vec![]] } else { vec![] };
+                        wire1.extend(body1.iter().cloned());
+                        let tap = oconns[j].0.tap_from(oconns[j].1);
+                        if tap[before[j]..] != rc::encode_msg(&wire1)[..] {
+                            s2.borrow_mut().viol.push(("message_incomplete_or_altered_at_return", format!("{} while peer {d} was leaving: send #{t} put {} bytes on peer {j}'s connection, which are not the encoding of {}", kind.name(), tap.len() - before[j], show_msg(&wire1))));
+                            return world::park().await;
+                        }
                     }
                     if kind == Kind::Req && !matches!(rt::future::or_idle(sock.recv()).await, Some(Ok(_))) {
                         // the request went to the partner that has gone: the failed recv is how REQ observes it
